@@ -18,7 +18,7 @@ class Style(object):
 
     def __init__(self, rng=None, shuffle=False, drop=(), blank=0,
                  crlf_headers=False, json_style='canonical',
-                 trailing_blank=0, extra=None):
+                 trailing_blank=0, extra=None, meta_line_endings=False):
         self.rng = rng
         self.shuffle = shuffle
         self.drop = set(drop)        # optional options a producer may omit
@@ -27,12 +27,15 @@ class Style(object):
         self.json_style = json_style
         self.trailing_blank = trailing_blank
         self.extra = extra           # callable(section_index, sid) -> pairs
+        #: metadata headers carry the (common content) line_endings option
+        self.meta_line_endings = meta_line_endings
 
     @property
     def canonical(self):
         return not (self.shuffle or self.drop or self.blank or
                     self.crlf_headers or self.json_style != 'canonical' or
-                    self.trailing_blank or self.extra)
+                    self.trailing_blank or self.extra or
+                    self.meta_line_endings)
 
 
 CANON = Style()
@@ -158,21 +161,39 @@ def serialize(doc, style=CANON):
     def put_meta(meta, level, inherited):
         codec = effective(meta.get('encoding'), inherited)
         text = jsoncanon.foreign(meta['obj'], style.json_style, style.rng)
-        if codec is None:
-            data = text.encode('ascii')
-            cdc = None
-        else:
-            data = text.encode(codec)
-            cdc = codec
+        own_le = meta.get('line_endings')
+        if own_le and style.json_style == 'canonical':
+            text = jsoncanon.emit(meta['obj'], indent=4, sort=True,
+                                  nl=NL[own_le])
+        cdc = codec
+        try:
+            data = text.encode(codec or 'ascii')
+        except UnicodeEncodeError:
+            # a producer that writes raw non-ASCII must escape what its
+            # codec cannot express
+            text = jsoncanon.emit(meta['obj'], indent=4, sort=True)
+            data = text.encode(codec or 'ascii')
         # JSON text never ends in a newline by itself; the section must.
         kind = detect_kind_bytes(data, cdc) if style.json_style == 'crlf' \
             else 'unix'
+        declared = None
+        if own_le and style.json_style == 'canonical':
+            declared = kind = own_le
+        elif style.meta_line_endings and style.rng is not None:
+            if style.json_style in ('crlf', 'compact', 'spaced'):
+                # multi-line CRLF JSON is dos; single-line JSON may be either
+                declared = 'dos' if style.json_style == 'crlf' else \
+                    style.rng.choice(['unix', 'dos'])
+            else:
+                declared = 'unix'
+            kind = declared
         nlb = newline_bytes(kind, cdc)
         if not data.endswith(nlb):
             data += nlb
         opts = [('encoding', meta.get('encoding')),
                 ('format', None if 'format' in style.drop else 'json'),
-                ('length', len(data))]
+                ('length', len(data)),
+                ('line_endings', declared)]
         opts = [(k, v) for k, v in opts if v is not None]
         put_header('.' * level + 'meta', level, opts, 'meta', meta['obj'],
                    data, {'codec': codec, 'nl': nlb, 'nl_kind': kind})
